@@ -54,7 +54,7 @@ TypeName(v, h) ==
     ELSE IF v.t = "str" THEN "string"
     ELSE IF v.t = "tuple" THEN "tuple"
     ELSE IF v.t = "range" THEN "range"
-    ELSE IF v.t = "bi" \/ v.t = "bm" THEN "function"
+    ELSE IF v.t \in {"bi", "bm", "partial"} THEN "function"
     ELSE IF v.t = "ref" THEN (IF h[v.a].kind = "fn" THEN "function" ELSE h[v.a].kind)
     ELSE IF v.t = "struct" THEN "struct"
     ELSE "?"
@@ -66,7 +66,7 @@ TypeNameCP(v, h) ==
     ELSE IF v.t = "str" THEN <<115, 116, 114, 105, 110, 103>>
     ELSE IF v.t = "tuple" THEN <<116, 117, 112, 108, 101>>
     ELSE IF v.t = "range" THEN <<114, 97, 110, 103, 101>>
-    ELSE IF v.t = "bi" \/ v.t = "bm" THEN <<102, 117, 110, 99, 116, 105, 111, 110>>      \* "function", also for builtins and bound methods
+    ELSE IF v.t \in {"bi", "bm", "partial"} THEN <<102, 117, 110, 99, 116, 105, 111, 110>>      \* "function", also for builtins and bound methods
     ELSE IF v.t = "ref" THEN (IF h[v.a].kind = "fn" THEN <<102, 117, 110, 99, 116, 105, 111, 110>> ELSE IF h[v.a].kind = "list" THEN <<108, 105, 115, 116>> ELSE IF h[v.a].kind = "set" THEN <<115, 101, 116>> ELSE <<100, 105, 99, 116>>)
     ELSE IF v.t = "struct" THEN <<115, 116, 114, 117, 99, 116>>
     ELSE <<63>>
